@@ -18,6 +18,10 @@ func c04Leaf(rich bool) (e *gen.Ex, obeys bool) {
 	if !rich {
 		hi = 1
 	}
+	shi := hi
+	if rich {
+		shi = 4
+	}
 	if v.Choose(0, 1) == 0 {
 		lit := gen.NumLit(v.Choose(0, 1))
 		e = &gen.Ex{Kind: gen.KInt, Lit: lit}
@@ -40,7 +44,11 @@ func c04Leaf(rich bool) (e *gen.Ex, obeys bool) {
 	}
 	lit, dec := docString(2, 1)
 	e = &gen.Ex{Kind: gen.KStr, Lit: lit}
-	switch v.Choose(0, hi) {
+	switch v.Choose(0, shi) {
+	case 4:
+		// members of other kinds whose text a string example can spell
+		e.Rules = append(e.Rules, gen.Rule{Name: "enum", Value: bs(`[7, "bc", null]`)})
+		obeys = len(dec) == 2 && dec[0] == 'b' && dec[1] == 'c'
 	case 1:
 		p := uintLit()
 		e.Rules = append(e.Rules, gen.Rule{Name: "minLength", Value: p})
@@ -178,7 +186,88 @@ func ZZC04Items() {
 	}
 }
 
+// ZZC04Nest: a leaf with rules below 1..2 containers that carry no rules themselves (an array
+// without annotation, an object with one required or one optional property).
+func ZZC04Nest() {
+	leaf, ok := c04Leaf(true)
+	root := leaf
+	depth := v.Choose(1, v.Param("depth", 2))
+	for i := 0; i < depth; i++ {
+		switch v.Choose(0, 2) {
+		case 0:
+			root = &gen.Ex{Kind: gen.KArr, Kids: []*gen.Ex{root}}
+		case 1:
+			root = &gen.Ex{Kind: gen.KObj, Keys: [][]byte{bs("k")}, Kids: []*gen.Ex{root}}
+		default:
+			if root.Kind != gen.KArr && root.Kind != gen.KObj || len(root.Rules) > 0 {
+				root.Optional = 1
+			} else {
+				// an annotation on a multi-line container needs its own rendering; keep the plain form
+				v.Assume(false)
+			}
+			root = &gen.Ex{Kind: gen.KObj, Keys: [][]byte{bs("k")}, Kids: []*gen.Ex{root}}
+		}
+	}
+	st := gen.Schema(root)
+	ex := gen.JSON(gen.ExampleDoc(root))
+	v.Observe("schema", st)
+	v.Observe("example", ex)
+	s := jschema.New("s", st)
+	cerr := s.Check()
+	if cerr == nil {
+		v.Reach("C04/nest-accepts")
+		v.Assert(ok, "C04/check-accepts-example-violating-its-rule")
+		v.Assert(s.Validate(json.New("d", ex)) == nil, "C04/accepted-schema-rejects-its-own-example")
+		return
+	}
+	v.Reach("C04/nest-rejects")
+	v.Assert(!ok, "C04/check-rejects-valid-schema")
+	if !ok {
+		pe, isPE := cerr.(jlib.ParsingError)
+		v.Assert(isPE, "C04/error-without-position")
+		if isPE {
+			v.Assert(int(pe.Position()) == leaf.Off, "C04/error-position-is-not-the-offending-value")
+		}
+	}
+}
+
+// ZZC04Kinds: two empty containers, each with an or rule over built-in types; Check accepts iff
+// every example is of a kind its own list admits (whatever the neighbours admit).
+func ZZC04Kinds() {
+	names := []string{"object", "array", "string", "integer"}
+	node := func() (string, bool) {
+		kind := v.Choose(0, 1) // 0 {}, 1 []
+		a, b := v.Choose(0, 3), v.Choose(0, 3)
+		v.Assume(a != b)
+		t := []string{"{}", "[]"}[kind] + " // {or: [{type: \"" + names[a] + "\"}, {type: \"" + names[b] + "\"}]}"
+		return t, a == kind || b == kind
+	}
+	t1, ok1 := node()
+	t2, ok2 := node()
+	// the comma goes before the annotation
+	st := "{\n  \"a\": " + t1[:2] + "," + t1[2:] + "\n  \"b\": " + t2 + "\n}"
+	v.Observe("schema", st)
+	s := jschema.New("s", st)
+	cerr := s.Check()
+	if ok1 && ok2 {
+		v.Reach("C04/kinds-admitted")
+		v.Assert(cerr == nil, "C04/check-rejects-valid-schema")
+		if cerr == nil {
+			ex, eerr := s.Example()
+			v.Assert(eerr == nil, "C15/example-error-on-accepted-schema")
+			if eerr == nil {
+				v.Assert(s.Validate(json.New("d", ex)) == nil, "C04/accepted-schema-rejects-its-own-example")
+			}
+		}
+		return
+	}
+	v.Reach("C04/kinds-excluded")
+	v.Assert(cerr != nil, "C04/check-accepts-example-violating-its-rule")
+}
+
 func init() {
+	ZZHarnesses["ZZC04Nest"] = ZZC04Nest
+	ZZHarnesses["ZZC04Kinds"] = ZZC04Kinds
 	ZZHarnesses["ZZC04"] = ZZC04
 	ZZHarnesses["ZZC04Items"] = ZZC04Items
 }
